@@ -114,7 +114,7 @@ def check(case, ctx=None):
 # from its raw arrays and its stored prefixes - read off pos/crd level by level - need structural support.
 @st.composite
 def operator_cases(draw, tier):
-    op = draw(st.sampled_from(["*", "*", "*", "+", "-", "@"]))
+    op = draw(st.sampled_from(["*", "*", "+", "-", "@", "@", "@"]))
 
     def tensor(order, dims=None):
         dims = dims if dims is not None else tuple(draw(st.sampled_from([1, 2, 2, 3, 3, 4])) for _ in range(order))
@@ -124,8 +124,36 @@ def operator_cases(draw, tier):
         stored = draw(gen.stored_tensor(dims, fmt, value_class="exact", density=draw(st.sampled_from([1, 1, 2, 2, 3]))))
         return {"tensor": {"dims": list(dims), "fmt": fmt, "stored": stored}}
 
+    if op == "@" and draw(st.booleans()):
+        # matrix @ vector / vector @ matrix built so that some stored matrix fibres meet none of the positions the vector
+        # stores (the vector is between half full and full): those rows / columns have no structural support
+        k = draw(st.sampled_from([3, 4, 4, 5, 6]))
+        n = draw(st.sampled_from([2, 3, 4]))
+        stored_v = sorted(draw(st.sets(st.integers(0, k - 1), min_size=(k + 1) // 2, max_size=k - 1)))
+        missing = [q for q in range(k) if q not in stored_v]
+        dok_m = {}
+        for r in range(n):
+            kind = draw(st.sampled_from(["miss", "miss", "hit", "both", "empty"]))
+            cols = {"miss": draw(st.sets(st.sampled_from(missing), min_size=1)), "hit": draw(st.sets(st.sampled_from(stored_v), min_size=1)),
+                    "both": set(missing[:1]) | set(stored_v[:1]), "empty": set()}[kind]
+            for c in cols:
+                dok_m[(r, c)] = float(draw(st.integers(1, 6))) / 2
+        vec_first = draw(st.integers(0, 2)) == 0
+        if vec_first:
+            dok_m = {(c, r): v for (r, c), v in dok_m.items()}
+            mdims = (k, n)
+        else:
+            mdims = (n, k)
+        mmodes = tuple(draw(st.sampled_from("sssd")) for _ in range(2))
+        _m, mord = C.fmt_parts(draw(gen.formats(2)))
+        mfmt = C.fmt_text(mmodes, mord)
+        ml, mv = C.levels_from_dok(dok_m, mdims, mmodes, mord)
+        vl, vv = C.levels_from_dok({(q,): 1.0 + q for q in stored_v}, (k,), ("s",), (0,))
+        M = {"tensor": {"dims": list(mdims), "fmt": mfmt, "stored": {"levels": ml, "vals": mv}}}
+        V = {"tensor": {"dims": [k], "fmt": "s", "stored": {"levels": vl, "vals": vv}}}
+        return {"op": "@", "left": V, "right": M} if vec_first else {"op": "@", "left": M, "right": V}
     if op == "@":
-        oa, ob = draw(st.sampled_from([(1, 2), (2, 1), (2, 2), (2, 2)]))
+        oa, ob = draw(st.sampled_from([(1, 2), (2, 1), (2, 1), (2, 2)]))
         a = tensor(oa)
         inner = a["tensor"]["dims"][-1]
         b = tensor(ob, tuple([inner] + [draw(st.sampled_from([1, 2, 3])) for _ in range(ob - 1)]))
